@@ -90,7 +90,7 @@ Fixpoint macts_eqb (a b : list maction) : bool :=
   end.
 
 Definition the_body : list maction :=
-  [MOther; MOther; MOther; MCancel; MOther; MOther; MOther; MOther; MOther; MExec; MPickle; MOther; MStatus; MOther].
+  [MOther; MOther; MOther; MCancel; MOther; MOther; MOther; MOther; MOther; MOther; MExec; MPickle; MOther; MStatus; MOther].
 Definition core_body : list maction := [MCancel; MExec; MPickle; MStatus].
 (** a body is a poll followed by the two writes (any order), up to graph-neutral calls *)
 Definition body_is_poll (b : list maction) : bool :=
